@@ -357,7 +357,7 @@ fn mk(workers: usize, poisoned: bool, parts: &'static [(char, &'static str)], ma
 
 /// store-buffer member: a thread holds the write lock, the coroutine W queues up (as writer or as first reader) and is
 /// cancelled; the holder unlocks in the instant in which W has registered its release
-fn handoff_vs_cancel(e: &'static Engine, workers: usize, reader: bool) {
+pub fn handoff_vs_cancel(e: &'static Engine, workers: usize, reader: bool) {
     rt_init(workers);
     let l: &'static RwLock<u32> = Box::leak(Box::new(RwLock::new(0)));
     static HELD: AtomicBool = AtomicBool::new(false);
